@@ -204,7 +204,7 @@ def _drive(spec: dict, kit: Kit) -> dict:
                 # results that still belong to the other record are fine as long as they refuse this one;
                 # results for this record are fine when they are what a run from scratch gives
                 applied = base._guard(lambda: kit.apply(again, fresh))[:2]
-                if applied[0] == "exc":
+                if applied[0] == "exc" and applied != applied0:
                     classes.add("refused_on_apply")
                     continue
                 if level == "class":
@@ -218,9 +218,12 @@ def _drive(spec: dict, kit: Kit) -> dict:
                 if wanted is not None and text == wanted:
                     classes.add("other_record_as_from_scratch")
                     continue
-                raise Violation("other_record_reused", dict(where, saved_for=getattr(again, "record_id", None),
-                                                            applied_to=fresh.id,
-                                                            from_scratch="differs" if wanted is not None else "n/a"))
+                # kept back like the other listed root causes, so that the rest of the history is still judged
+                deferred.note("other_record_reused", dict(where, saved_for=getattr(again, "record_id", None),
+                                                          applied_to=fresh.id,
+                                                          from_scratch="differs" if wanted is not None else "n/a"))
+                classes.add("other_record_reused")
+                continue
             if mode == "fresh":
                 # the module may adapt to the new setting, but then it must give what a run from scratch gives
                 wanted = kit.fresh_text(spec, env, options)
